@@ -89,3 +89,11 @@ reg('C30', engine='pysym + llsym',
          'CPython on each change), llsym semantics. Not covered: exceptions raised inside pycparser itself, '
          'non-ASCII text, longer inputs.',
     technique='symbolic execution via proxy values (Python) and of LLVM IR (C), SMT (z3)')
+
+reg('C25', engine='llsym',
+    text='Bounded symbolic execution of the real search_sorted on a symbolic sorted table (names of symbolic '
+         'content and length) and a symbolic search string: found index <=> exact equality, -1 <=> no entry equal, '
+         'no read outside the strings, for all tables/strings within the bounds.',
+    note='Trusted: clang IR, llsym semantics, strncmp contract. Precondition: table sorted in byte order (the '
+         'generator\'s sort is not re-verified). Bounds: <=4 (7) entries, names <=3 (4) bytes.',
+    technique='symbolic execution of LLVM IR, SMT (z3 bit-vectors)')
